@@ -45,6 +45,30 @@ pub fn gen(tier: &str, r: &mut Rng) -> Vec<String> {
             out.push(format!("c15 filter mmcif {} {} {} {}", lvl, flags, enc_bytes(text.as_bytes()), enc_bytes(text_nh.as_bytes())));
         }
     }
+    // (a') serial numbers and residue numbers that wrap (99999 -> 0, 9999 -> 0) exactly on a hydrogen record, on the
+    // record after it, or nowhere near one: the discarded record must not take part in the wrap bookkeeping
+    for k in 0..budget(tier, 48, 600) {
+        let mut rr = Rng::new(7000 + k as u64, "c15-wrap");
+        let n = 4 + rr.below(6);
+        let start = 99_999 - rr.below(3);
+        let rstart = 9_999 - rr.below(3) as i64;
+        let h_at = rr.below(n);
+        let nmodels = 1 + rr.below(2);
+        let mut lines = Vec::new();
+        for mi in 0..nmodels {
+            if nmodels > 1 { lines.push(pdbtext::model_line(mi + 1)); }
+            for i in 0..n {
+                let is_h = i == h_at || rr.chance(1, 5);
+                let a = pdbtext::AtomRec { het: false, serial: (start + i) % 100000, name: if is_h { "H".into() } else { "CA".into() }, alt: ' ', resname: "GLY".into(), chain: 'A', resseq: (rstart + i as i64) % 10000, icode: ' ',
+                    x: i as i64 * 1000, y: mi as i64 * 1000, z: 0, occ: 1_000_000, b: 0, seg: String::new(), element: if is_h { "H".into() } else { "C".into() }, charge: 0, aniso: None };
+                lines.push(pdbtext::atom_line(&a, &mut rr, false));
+            }
+            if nmodels > 1 { lines.push("ENDMDL".into()); }
+        }
+        lines.push("END".into());
+        let flags = format!("1{}{}", rr.below(2), rr.below(2));
+        out.push(format!("c15 filter pdb Loose {} {}", flags, enc_bytes((lines.join("\n") + "\n").as_bytes())));
+    }
     // (b) opening by path
     for _ in 0..budget(tier, 300, 6_000) {
         let name = names(r);
